@@ -66,6 +66,11 @@ CLAIMS["C13"] = dict(
     note="configparser section copying, os.path, str() and str.join are assumed/uninterpreted; team.load_car's car-order loop and _apply_config template mirroring are not yet under contract (not_decided).",
     design="§4 C13",
 )
+CLAIMS["C19"] = dict(
+    text="Proof (loop invariant over a ghost failed-item prefix count) that BulkIndex.simple_stats reports error-count / success-count equal to the numbers of failed / succeeded items of the fully parsed response and success iff no item failed on the slow path, and 0 errors / bulk_size successes on the fast path. The search_after cursor (_get_last_sort) and the selective parser are text scanners: they are covered by a BOUNDED stand-in only (36k enumerated responses vs json.loads on the real code), labelled bounded.",
+    note="Two known findings of the bounded part (']' inside a sort string; the text \"sort\" recurring after the last hit's sort key) are recorded in known_findings.txt by input class; any other failing response is reported. json.loads / next(iter(..)) are uninterpreted; detailed_stats and Query page accounting are not yet under contract.",
+    design="§4 C19",
+)
 NA_DEFAULT = "check not built yet in this revision (the framework is under construction; see DESIGN.md §6b build order)"
 checks = []
 for p in props:
